@@ -1082,6 +1082,18 @@ func init() {
 	I["context.WithTimeout"] = func(in *Interp, fn *ssa.Function, a []Value) Value { return cancelFn(in, a) }
 	I["context.WithDeadline"] = func(in *Interp, fn *ssa.Function, a []Value) Value { return cancelFn(in, a) }
 	I["context.WithoutCancel"] = func(in *Interp, fn *ssa.Function, a []Value) Value { return newCtx(ctxObj(a[0]), nil, nil) }
+	// reflect.TypeOf(x).String(): the dynamic type's name as Go prints it (only String/Kind-free uses are supported)
+	I["reflect.TypeOf"] = func(in *Interp, fn *ssa.Function, a []Value) Value {
+		iv, _ := a[0].(*IfaceV)
+		name := "<nil>"
+		if iv != nil && iv.typ != nil {
+			name = types.TypeString(iv.typ, func(p *types.Package) string { return p.Name() })
+		} else if iv != nil {
+			unsupported("reflect.TypeOf on an engine-native value")
+		}
+		return &IfaceV{typ: nil, v: &NativeObj{kind: "rtype", data: map[string]Value{"name": name}}}
+	}
+	nativeObjMethods["rtype.String"] = func(in *Interp, o *NativeObj, a []Value) Value { return o.data["name"] }
 	nativeObjMethods["ctx.Err"] = func(in *Interp, o *NativeObj, a []Value) Value { return (*IfaceV)(nil) }
 	nativeObjMethods["ctx.Done"] = func(in *Interp, o *NativeObj, a []Value) Value { return (*ChanV)(nil) }
 	nativeObjMethods["ctx.Deadline"] = func(in *Interp, o *NativeObj, a []Value) Value {
